@@ -350,8 +350,9 @@ impl Version {
         sc: &Arc<LeastRecentlyUsedCache<Setsum, CachedSst>>,
         start_bound: &Bound<T>,
         end_bound: &Bound<T>,
-        timestamp: u64,
     ) -> Result<MergingCursor<Box<dyn Cursor>>, SError> {
+        // NOTE:  The per-file cursors are not pruned.  The caller prunes the merged stream; a
+        // tombstone dropped per file could not shadow a value in an older file or level.
         fn lazy_cursor(
             fm: &FileManager,
             sc: &LeastRecentlyUsedCache<Setsum, CachedSst>,
@@ -380,10 +381,7 @@ impl Version {
             let root = self.options.path.clone();
             let setsum = Setsum::from_digest(sst.setsum);
             let lazy = move || lazy_cursor(&fm, &sc, &root, setsum);
-            cursors.push(Box::new(PruningCursor::new(
-                LazyCursor::new(lazy),
-                timestamp,
-            )?));
+            cursors.push(Box::new(LazyCursor::new(lazy)));
         }
         fn bound_to_bound<U: AsRef<[u8]>>(u: &Bound<U>) -> Bound<&[u8]> {
             match u {
@@ -421,7 +419,7 @@ impl Version {
                     let root = self.options.path.clone();
                     let setsum = Setsum::from_digest(sst.setsum);
                     let lazy = move || lazy_cursor(&fm, &sc, &root, setsum);
-                    this_level_cursors.push(PruningCursor::new(LazyCursor::new(lazy), timestamp)?);
+                    this_level_cursors.push(LazyCursor::new(lazy));
                 }
             }
             if !this_level_cursors.is_empty() {
@@ -1059,14 +1057,12 @@ impl VersionRef<'_> {
         &self,
         start_bound: &Bound<T>,
         end_bound: &Bound<T>,
-        timestamp: u64,
     ) -> Result<MergingCursor<Box<dyn Cursor>>, SError> {
         self.version.range_scan(
             &self.tree.file_manager,
             &self.tree.sst_cache,
             start_bound,
             end_bound,
-            timestamp,
         )
     }
 }
@@ -1666,7 +1662,7 @@ impl LsmTree {
         end_bound: &Bound<T>,
     ) -> Result<impl Cursor, SError> {
         let version = self.take_snapshot();
-        let version_scan = version.range_scan(start_bound, end_bound, u64::MAX)?;
+        let version_scan = version.range_scan(start_bound, end_bound)?;
         let cursor = PruningCursor::new(version_scan, u64::MAX)?;
         let cursor = BoundsCursor::new(cursor, start_bound, end_bound)?;
         Ok(PinnedCursor::new(cursor, version))
